@@ -619,8 +619,9 @@ class CtlSim:
             cmod.input = self._cli_input
             cmod.print = self._cli_print
             sys.stdout, sys.stderr = cap_out, cap_err
-            with running(self.loop), warnings.catch_warnings():
-                warnings.simplefilter("ignore")
+            with running(self.loop), warnings.catch_warnings(record=True) as wlist:
+                self.warn_list = wlist
+                warnings.simplefilter("always")
                 if self.cfg.get("wfilter") == "error":
                     # configuration knob: the process treats warnings as errors (-W error); applied to the library's own
                     warnings.filterwarnings("error", module=r"asyncio_taskpool")
@@ -658,6 +659,13 @@ class CtlSim:
             if gc_was:
                 gc.enable()
         self.captured = (cap_out.getvalue(), cap_err.getvalue())
+        # a warning issued while the server handles client input is, in a normally configured process, a line on stderr
+        for w in getattr(self, "warn_list", ()) or ():
+            if issubclass(w.category, (ResourceWarning,)) or "was never awaited" in str(w.message):
+                continue        # (tear-down artefacts of the simulation itself)
+            self.violate("C18", "server_printed", f"a {w.category.__name__} was issued while handling client input - by default it is printed on the "
+                         f"server's stderr: {w.filename}:{w.lineno}: {w.message}")
+            break
         if self.worker_prints:
             # what the application's own workers printed must have reached the console - all of it, and nothing else
             lines = self.captured[0].split("\n")
